@@ -192,12 +192,13 @@ def _descent_direction(X, y, w_epoch, Xw_epoch, fit_intercept, grad_ws, datafit,
     for cd_iter in range(MAX_CD_ITER):
         ptr = 0
         for idx, g in enumerate(ws):
+            grp_g_indices = grp_indices[grp_ptr[g]:grp_ptr[g+1]]
+            range_grp_g = slice(ptr, ptr + len(grp_g_indices))
+            ptr += len(grp_g_indices)
+
             # skip when X[:, grp_g_indices] == 0
             if lipchitz[idx] == 0.:
                 continue
-
-            grp_g_indices = grp_indices[grp_ptr[g]:grp_ptr[g+1]]
-            range_grp_g = slice(ptr, ptr + len(grp_g_indices))
 
             past_grads[range_grp_g] = grad_ws[range_grp_g]
             # += X[:, grp_g_indices].T @ (raw_hess * X_delta_w_ws)
@@ -214,8 +215,6 @@ def _descent_direction(X, y, w_epoch, Xw_epoch, fit_intercept, grad_ws, datafit,
             # X_delta_w_ws += X[:, grp_g_indices] @ (w_ws[range_grp_g] - old_w_ws_g)
             _update_X_delta_w_ws(X, X_delta_w_ws, w_ws[range_grp_g], old_w_ws_g,
                                  grp_g_indices)
-
-            ptr += len(grp_g_indices)
 
         # intercept update
         if fit_intercept:
